@@ -198,6 +198,13 @@ def runHolds (caseToks obsToks : List String) : String :=
       boolStr (holdsBridge c.src c.tgt o && holdsNoSpontaneousClose c.src c.tgt c.sw c.tw o && (st != "1" || cds == "1")
         && (cds == "1" || cds == "0"))
     | _, _, _ => "false"
+  | "bridgedup" :: rest =>
+    -- obs: <bridge obs> t2c <b> t2n <n>: a second target connection attached to the live bridge: the
+    -- established pipe keeps all its guarantees, the newcomer receives nothing and is closed as well
+    match parseBridge rest, parseBridgeObs (obsToks.takeWhile (· != "t2c")), obsToks.dropWhile (· != "t2c") with
+    | some c, some o, ["t2c", t2c, "t2n", t2n] =>
+      boolStr (holdsBridge c.src c.tgt o && holdsNoSpontaneousClose c.src c.tgt c.sw c.tw o && t2c == "1" && t2n == "0")
+    | _, _, _ => "false"
   | "bridgereal" :: rest =>
     match parseBridge rest, parseBridgeObs obsToks with
     | some c, some o => boolStr (holdsBridge c.src c.tgt o && holdsNoSpontaneousClose c.src c.tgt c.sw c.tw o)
